@@ -154,10 +154,28 @@ X_KEYS = {
     "bracket": "extended:comment-contains-bracket", "quantifier": "extended:comment-contains-quantifier",
     "hashq": "extended:hash-quantified", "lonehash": "extended:lone-hash", "nlq": "extended:quantified-newline-after-comment",
     "wsq": "extended:quantified-whitespace", "backslash": "extended:comment-contains-backslash", "other": "extended:other",
+    "anchor": "extended:comment-contains-anchor",
     # inline flag groups: `#` / whitespace standing where the text has switched x OFF (after `(?-x)`, inside `(?-x:..)`,
     # before `(?x)`) must be literal characters
     "hashoff": "extended:literal-hash-where-x-is-off", "wsoff": "extended:literal-whitespace-where-x-is-off",
 }
+
+
+# Go's regexp against itself (harness guardText / guardOracle): the emitted text and the same text with `(?:)` guards that block
+# the parser's alternation factoring give different verdicts.  gc names the cause the harness found in the unfactored tree.
+GO_KEYS = {
+    "foldmix": "match:go-regexp:alternation-factoring-ignores-case-flag",
+    "other": "match:go-regexp:alternation-factoring:other",
+}
+
+
+def go_deviation_key(o, expected_bits):
+    """the canonical key when the verdicts of the GUARDED text are exactly the expected ones: the whole disagreement is Go's
+    regexp disagreeing with itself (a defect of the trusted reference, not of the transpiler)"""
+    gd = o.get("gd")
+    if gd is None or gd != expected_bits:
+        return None
+    return GO_KEYS.get(o.get("gc", "other"), GO_KEYS["other"])
 
 
 class Tally:
@@ -228,20 +246,25 @@ def check_case(t, cid, inp, obs, exp, broke):
             t.bump(t.text_dist, "x-oracle:differ-in-text-only(quantified whitespace, same matches)")
         else:
             cause = o.get("xcause", "other")
-            key = X_KEYS.get(cause[6:] if cause.startswith("multi-") else cause, "extended:other")
+            # "multi-a+b": an irredundant SET of causes (harness xCause) - the case is reported under the class key of each
+            causes = cause[6:].split("+") if cause.startswith("multi-") else [cause]
+            keys = [X_KEYS.get(c, "extended:other") for c in causes]
             if cause == "other" and reparse_key(kv) == "match:reparse:bracket-range-end":
                 # `[k-]..]`: the Elk parser reads `-]` as a range end and goes on to the NEXT `]`; the oracle's scanner
                 # (like Go) ends the class at the first `]`, so they strip different stretches of text
-                key = "match:reparse:bracket-range-end"
+                keys = ["match:reparse:bracket-range-end"]
             if cause == "wsq" and reparse_key(kv) == "match:reparse:repeat-leading-zero":
                 # `x{00} +` -> `x{00}+`: Go accepts the stacked quantifier only because it reads `{00}` as literal text
-                key = "match:reparse:repeat-leading-zero"
+                keys = ["match:reparse:repeat-leading-zero"]
             t.bump(t.text_dist, "x-oracle:differ")
-            t.text_mism += 1
-            t.fail(size, key, "%s: Transpile gives %s but removing comments/whitespace first gives %s (cause: %s)" % (label, show(itext), show(xref), cause),
-                   "c21.text", base, "text=" + show(itext), None,
-                   "direct oracle: Transpile(src, f) must equal Transpile(xstrip(src, x in f), f - x) where xstrip removes comments and whitespace "
-                   "exactly where the literal's x flag / the (?x) (?-x) groups of the text switch extended mode on; got %s vs %s" % (show(itext), show(xref)))
+            if len(causes) > 1:
+                t.bump(t.text_dist, "x-oracle:differ:several causes at once (reported under each class key)")
+            for key in keys:
+                t.text_mism += 1
+                t.fail(size, key, "%s: Transpile gives %s but removing comments/whitespace first gives %s (cause: %s)" % (label, show(itext), show(xref), cause),
+                       "c21.text", base, "text=" + show(itext), None,
+                       "direct oracle: Transpile(src, f) must equal Transpile(xstrip(src, x in f), f - x) where xstrip removes comments and whitespace "
+                       "exactly where the literal's x flag / the (?x) (?-x) groups of the text switch extended mode on; got %s vs %s" % (show(itext), show(xref)))
 
     if ast == "ERR":
         t.bump(t.text_dist, "parse-error")
@@ -311,6 +334,11 @@ def check_case(t, cid, inp, obs, exp, broke):
         t.bump(t.match_dist, "x-pattern with quantified whitespace (not compared)")
         return
     t.bump(t.match_dist, "x-pattern (m only)" if x else "plain (m and e)")
+    if "gd" in o:
+        t.bump(t.match_dist, "go-regexp: emitted text and its factoring-guarded form give different verdicts (%s)" % o.get("gc", "?"))
+        if len(o["gd"]) != len(im):
+            broke("malformed guard bits for %s: %s" % (base, obs[:200]))
+            return
     t.match_evals += len(im)
     if "0" in im and "1" in im:
         t.match_nontrivial.add((flags, src_h))
@@ -325,10 +353,14 @@ def check_case(t, cid, inp, obs, exp, broke):
         k = [i for i in range(len(im)) if im[i] != bits[i]][0]
         t.match_mism += 1
         rk = reparse_key(kv)
-        key = rk if rk else "match:%s:%s" % (which, feature_tags(kv))
+        gk = go_deviation_key(o, bits)
+        key = gk if gk else rk if rk else "match:%s:%s" % (which, feature_tags(kv))
         what = "%s subject=%r: compiled Go matcher says %s, %s says %s (emitted text %s)" % (
             label, unhex(subj[k]) if subj[k] != "e" else "", im[k],
             "the model of Go's semantics on the emitted term" if which == "m" else "the Elk denotation", bits[k], show(itext))
+        if gk:
+            what += ("; Go's regexp disagrees with ITSELF here: the same text with empty groups `(?:)` in front of every alternative (which "
+                     "blocks the parser's alternation factoring and denotes the same language) gives %s, exactly the expected verdicts" % o["gd"])
         t.fail(size + len(subj[k]), key, what, "c21.match", base + " subj=" + subj[k], "m=" + im, which + "=" + bits,
                "Regex#matches must accept exactly the strings the Elk pattern denotes" if which == "e"
                else "Go's regexp on the emitted text vs the model of the emitted term (trusted-spec validation / reparse ambiguity)")
@@ -523,7 +555,23 @@ def check_compose_case(t, cid, inp, obs, exp, broke):
         t.nontrivial.add(tsrc)
     key = None
     bad = [i for i in range(len(subs)) if sm[i] != se[i]]
-    if bad:
+    if "gd" in o:
+        t.bump("go-regexp: a value's compiled text and its factoring-guarded form give different verdicts (%s)" % o.get("gc", "?"))
+    if bad and "gd" in o:
+        # Go's regexp disagrees with itself on some subterm's compiled text (harness guardText); when the verdicts of the guarded
+        # texts are exactly the denoted ones the whole disagreement is that deviation of the trusted reference: its own class key
+        g = o["gd"].split("/")
+        if len(g) == len(subs) and all((g[i] if g[i] != "-" else sm[i]) == se[i] for i in range(len(subs))):
+            i = bad[0]
+            k = [j for j in range(len(subj)) if sm[i][j] != se[i][j]][0]
+            key = GO_KEYS.get(o.get("gc", "other"), GO_KEYS["other"])
+            t.fail(len(tsrc) + len(subj[k]), key,
+                   "%s subterm %d subject=%r: Regex#matches says %s, the term denotes %s; Go's regexp disagrees with ITSELF on the compiled text: with empty "
+                   "groups `(?:)` in front of every alternative (no factoring, same language) it gives the denoted verdicts" % (
+                       show_term(tsrc), i, "" if subj[k] == "e" else unhex(subj[k]), sm[i][k], se[i][k]),
+                   base, "sm=" + o.get("sm", ""), "se=" + e.get("se", ""),
+                   "Go's regexp on the emitted text vs the same text with alternation factoring blocked (trusted-reference validation)")
+    if bad and key is None:
         # a disagreement on Regex#matches verdicts.  WHICH step breaks is decided afterwards (diagnose_compose): an operand can
         # be wrong as a value although its own unanchored verdicts agree (`x * 0` always "matches"), so the first disagreeing
         # verdict is not the place
@@ -780,13 +828,18 @@ RULE_TEXT = ("grammar-directed Elk regex sources (<= 12 nodes: literals incl. ca
              "char-level mutation (delete/insert/duplicate) of such a source; corpus first. Go's own parser output is walked into the model's tree; "
              "compared: emitted text exactly (model transpile_text vs regex.Transpile), and for every pattern with x on the literal or in a flag "
              "group the direct oracle Transpile(src,f) = Transpile(xstrip(src), f-x), xstrip = a source-level scanner that follows the x state through "
-             "bare and scoped flag groups and removes comments and whitespace only where x is on; non-trivial = parsed and transpiled without error, "
-             "distinct by (flags, source)")
+             "bare and scoped flag groups and removes comments and whitespace only where x is on, without fusing tokens (after an octal escape "
+             "`\\0 5` it leaves the empty comment group `(?#)` so that the digit does not join the escape); a disagreement is classified by defusing "
+             "suspected causes in the source - one cause, or the smallest set of causes that restores agreement, reported under the class key of each; "
+             "non-trivial = parsed and transpiled without error, distinct by (flags, source)")
 RULE_MATCH = ("cases of c21.text whose emitted text Go compiles and equals the model's: 6-10 subjects (<= 6 runes: the empty string, samples "
               "drawn by walking the tree - class members, range ends and neighbours, case-fold orbit members - their mutations, random picks from the "
               "special alphabet incl. \\n); regexp.MatchString vs matches_re2 on the emitted term (validates the Go-semantics assumption) and vs "
-              "matches_elk on the tree (the property; patterns without x); evaluations = subject evaluations; non-trivial = patterns that accept "
-              "some subject and reject another")
+              "matches_elk on the tree (the property; patterns without x); third oracle, Go's regexp against itself: the emitted text with the "
+              "empty group `(?:)` written in front of every alternative (same language, but Go's parser cannot factor the alternation) must give the "
+              "same verdicts - where it does not and the guarded verdicts are the expected ones, the failure is keyed match:go-regexp:* (a defect of the "
+              "trusted reference, not of the transpiler); evaluations = subject evaluations; non-trivial = patterns that accept some subject and "
+              "reject another")
 
 
 def run(ctx):
@@ -821,10 +874,18 @@ def run(ctx):
         "enter with the stripped tree of C21_extended_flags_sound, terms with a leaf that has a comment or lies in a c21.match known-finding "
         "class are not evaluated. A failing term is attributed to the innermost step whose match relation (start -> end positions on the "
         "subjects) differs from the denoted one. Unicode tables, fold orbits and POSIX "
-        "tables are oracles instantiated per case from the live Go packages. The model mirrors the code AFTER fixes/C21-global-flags.patch "
+        "tables are oracles instantiated per case from the live Go packages. Go's regexp is the trusted reference for the emitted text EXCEPT for "
+        "one recorded deviation, found by c21.match and confirmed with a plain Go program (Go 1.25.0): regexp/syntax factors alternations while parsing and "
+        "compares the leading one-rune literals of two alternatives ignoring the case-insensitivity flag, so `Z(?i).|z` is compiled as `Z(?:.|(?:))` "
+        "and %/Z(?i).|z/ does not match \"z\" (known finding match:go-regexp:alternation-factoring-ignores-case-flag; the theorems speak about the "
+        "ideal RE2 semantics m2, which accepts \"z\"). The streams detect it without the model: the emitted text and the same text with `(?:)` in "
+        "front of every alternative must give the same verdicts. The model mirrors the code AFTER fixes/C21-global-flags.patch "
         "and fixes/C21-empty-split-class.patch; on a tree without them the check reports those two defects.")
     ctx.trusted_base += [
-        "Go regexp/syntax + regexp engine: trusted specification of the emitted RE2 subset (m2 in Model/C21_RegexSem.v), validated per case by stream c21.match",
+        "Go regexp/syntax + regexp engine: trusted specification of the emitted RE2 subset (m2 in Model/C21_RegexSem.v), validated per case by stream c21.match; "
+        "one recorded deviation of the real engine from m2: alternation factoring in regexp/syntax ignores the case flag of a leading one-rune literal "
+        "(`Z(?i).|z` vs \"z\"; known finding match:go-regexp:alternation-factoring-ignores-case-flag, classified by the guard oracle: same text with `(?:)` "
+        "in front of every alternative)",
         "unicode tables (Categories/Scripts), POSIX class tables and unicode.SimpleFold orbits: section oracles, dumped per case from the live Go packages for "
         "the runes of the subjects and their orbit members",
         "harness AST walker (harness/cmd/c21): the tree the model sees is the one regex/parser returned, serialised node by node; regex/lexer and regex/parser "
@@ -834,7 +895,9 @@ def run(ctx):
         "on `\\A(?s:.{i})(?:text)(?s:.{k})\\z`; the Elk-level runs cover only leaves writable as %/../ literals (no `/`, `${`, control characters) and subjects writable "
         "as raw strings",
         "second oracle for extended mode: xScan/xStrip in harness/cmd/c21 (follows x through bare and scoped flag groups of the source text; where x is on, "
-        "comments and unescaped whitespace outside classes, escapes, \\Q..\\E and (?#..) are removed; its reading of where a class ends is Go's, not the Elk parser's)",
+        "comments and unescaped whitespace outside classes, escapes, \\Q..\\E and (?#..) are removed; tokens are never fused: where text is removed between an "
+        "octal escape and a digit it writes the empty comment group `(?#)`, which the regex lexer drops; its reading of where a class ends is Go's, not the "
+        "Elk parser's)",
     ]
     ctx.run_proof_gate()
     h = vlib.build_harness("c21")
